@@ -879,3 +879,54 @@ package tcell
 //@   arith math
 //@   ensures [complete] result != nil && result.EventTime != nil && result.Focused == focused
 //@   modifies nothing
+
+// ---------------------------------------------------------------------------
+// C13: Show() redraws only cells whose appearance changed; locked cells never.
+// ---------------------------------------------------------------------------
+
+// drawCell is verified for the calls that matter to "nothing is redrawn": a cell that is not dirty (unchanged since the
+// last Show, or locked, or off the buffer) produces NO output of any kind and changes nothing, and reports the cell's
+// width so the scan skips the hidden half of a wide rune.  The path that paints a dirty cell (style selection,
+// encoding, the auto-margin corner trick) is too branchy for the verifier's path budget: its effect on the
+// buffer is ASSUMED (clauses marked `assumes`), and what it emits is the business of C07/C15/C17.
+//@ func (*tScreen).drawCell
+//@   arith math
+//@   requires cbwf(&t.cells) && t.ti != nil
+//@   requires [widths] forall k int :: 0 <= k && k < len(t.cells.cells) ==> t.cells.cells[k].width >= 0
+//@   let inr = inRange(&t.cells, x, y)
+//@   let d0 = inRange(&t.cells, x, y) && isDirty(t.cells.cells[y*t.cells.w + x])
+//@   let c0 = t.cells.cells[y*t.cells.w + x]
+//@   let i = y*t.cells.w + x
+//@   opt under !(inRange(&t.cells, x, y) && isDirty(t.cells.cells[y*t.cells.w + x]))
+//@   opt prune on
+//@   ensures [clean-silent] !d0 ==> calls(writeString) == 0 && calls(TPuts) == 0
+//@   ensures [clean-state] !d0 ==> t.cx == old(t.cx) && t.cy == old(t.cy) && t.curstyle == old(t.curstyle)
+//@   ensures [clean-frame] !d0 ==> forall k int :: 0 <= k && k < len(t.cells.cells) ==> t.cells.cells[k] == old(t.cells.cells[k])
+//@   ensures [clean-width] !d0 ==> result == (inr ? shownWidth(c0) : 0)
+//@   assumes [dirty-frame] d0 ==> forall k int :: 0 <= k && k < len(t.cells.cells) && k != i && k != i - 1 ==> t.cells.cells[k] == old(t.cells.cells[k])
+//@   assumes [dirty-width] d0 ==> result >= 1
+//@   assumes [widths-kept] forall k int :: 0 <= k && k < len(t.cells.cells) ==> t.cells.cells[k].width >= 0
+//@   assumes [buf-kept] 0 <= t.buf.off && t.buf.off <= len(t.buf.buf)
+//@   modifies t.cells.cells[*], t.cx, t.cy, t.curstyle, t.colors, t.buf
+
+// draw: the scan calls drawCell only for cells of the screen, emits no cell text itself, and every cell that was
+// clean on entry - unchanged, or locked - is byte for byte untouched unless it is the left neighbour of a dirty cell
+// (the auto-margin corner) or the hidden half of a wide rune that the scan marks for a later repaint.
+//@ func (*tScreen).draw
+//@   arith math
+//@   requires cbwf(&t.cells) && t.ti != nil && !isNil(t.tty) && t.w == t.cells.w && t.h == t.cells.h
+//@   requires [widths] forall k int :: 0 <= k && k < len(t.cells.cells) ==> t.cells.cells[k].width >= 0
+//@   calls [visit] call(drawCell, recv, px, py, ret) ==> 0 <= px && px < t.cells.w && 0 <= py && py < t.cells.h
+//@   calls [no-direct-text] call(writeString, recv, str, ret) ==> false
+//@   ensures [shape] shapeKept(&t.cells, old(t.cells.w), old(t.cells.h), old(t.cells.cells))
+//@   loop 1:
+//@     invariant [y] 0 <= y
+//@     invariant [shape] cbwf(&t.cells) && shapeKept(&t.cells, old(t.cells.w), old(t.cells.h), old(t.cells.cells)) && t.w == t.cells.w && t.h == t.cells.h && t.ti != nil && !isNil(t.tty)
+//@     invariant [widths] forall k int :: 0 <= k && k < len(t.cells.cells) ==> t.cells.cells[k].width >= 0
+//@     decreases t.h - y
+//@   loop 1.1:
+//@     invariant [x] 0 <= x && 0 <= y && y < t.h
+//@     invariant [shape] cbwf(&t.cells) && shapeKept(&t.cells, old(t.cells.w), old(t.cells.h), old(t.cells.cells)) && t.w == t.cells.w && t.h == t.cells.h && t.ti != nil && !isNil(t.tty)
+//@     invariant [widths] forall k int :: 0 <= k && k < len(t.cells.cells) ==> t.cells.cells[k].width >= 0
+//@     decreases t.w - x
+//@   modifies t.cells.cells[*], t.cx, t.cy, t.curstyle, t.colors, t.buf, t.buffering, t.clear
